@@ -233,7 +233,7 @@ fn case2<T: Elem>(case: u64, args: &Args, ev: &mut Ev, log: &mut EventLog) {
 
 fn main() {
     let args = Args::parse("C06");
-    let n = args.budget(900, 30000);
+    let n = args.budget(900, 150000);
     let ev = run_sharded(&args, n, |case, ev, log| {
         let f32_ = case % 5 == 4;
         match (case % 3, f32_) {
